@@ -39,8 +39,8 @@ Print Assumptions c02ar_test_never_panics.
    FENCE or not): then TEST … WITHIN|INTERSECTS <the same tokens>
      - builds exactly the same object and consumes every token, when the search area is one of POINT,
        CIRCLE, OBJECT, SECTOR, BOUNDS, HASH, QUADKEY, TILE, GET without CLIPBY;
-     - answers "invalid number of arguments" for the three things only the search side knows: MVT
-       (s_mvt), GEO (lfs.obj == nil) and CLIPBY (AClip).
+     - answers "invalid number of arguments" for the two things only the search side knows: MVT
+       (s_mvt) and CLIPBY (AClip).
    The hypothesis tile_z_unsigned excludes TILE x y z with a sign in front of z (c02ar_tile_sign_refuted). *)
 Theorem c02ar_search_ok_test_same : forall lower pf gj_ok sec_ok lookup cmd fence isect vs r,
   is_nearby cmd = false ->
@@ -88,11 +88,12 @@ Theorem c02ar_switch_is_parse_area : forall lower pf gj_ok sec_ok lookup cmd cli
 Proof. exact switch_shared. Qed.
 Print Assumptions c02ar_switch_is_parse_area.
 
-(* With CLIP both refuse CIRCLE / OBJECT / SECTOR; the texts differ by design
+(* With CLIP both refuse CIRCLE / OBJECT / SECTOR / GET, whatever follows; the texts differ by design
    ("invalid argument 'cannot clip with circle'" against "invalid clip type 'CIRCLE'"). *)
 Theorem c02ar_clip_refused_texts_differ : forall lower pf gj_ok sec_ok lookup cmd typ vs,
   is_empty typ = false ->
-  beq (lower typ) "circle" || beq (lower typ) "object" || beq (lower typ) "sector" = true ->
+  beq (lower typ) "circle" || beq (lower typ) "object" || beq (lower typ) "sector"
+    || beq (lower typ) "get" = true ->
   (exists m, search_switch lower pf gj_ok sec_ok lookup cmd true (lower typ) vs
              = Err (EInvalidArg (lit "cannot clip with " ++ m)))
   /\ parse_area lower pf gj_ok sec_ok lookup true (typ :: vs) = Err (EClipType typ).
@@ -136,33 +137,41 @@ Theorem c02ar_bounds_shorthand : forall lower pf gj_ok sec_ok lookup cmd fence c
 Proof. exact bounds_shorthand. Qed.
 Print Assumptions c02ar_bounds_shorthand.
 
-(* ---------------------------------------------------------------- where the code is wrong *)
+(* ---------------------------------------------------------------- the search object is never nil *)
 
-(* "An accepted WITHIN / INTERSECTS has a search object" is FALSE: GEO is in withinOrIntersectsTypes and
-   has no arm in the switch (finding C02-within-geo-nil: WITHIN key GEO makes the server dereference nil). *)
-Theorem c02ar_search_obj_nonnil_refuted :
-  exists vs r, search0 CWithin false false false vs = Ok r /\ s_obj r = ANil.
-Proof. exact geo_nil_witness. Qed.
-Print Assumptions c02ar_search_obj_nonnil_refuted.
-
-(* ... and true for every other word. *)
-Theorem c02ar_search_obj_nonnil_partial : forall lower pf gj_ok sec_ok lookup cmd fence clip typ vs1 r,
-  is_nearby cmd = false -> beq (lower typ) "geo" = false ->
-  search_area lower pf gj_ok sec_ok lookup cmd fence clip false (typ :: vs1) = Ok r -> s_obj r <> ANil.
+(* Every accepted WITHIN / INTERSECTS — any FENCE / CLIP flags, the BOUNDS shorthand included, any
+   CLIPBY chain — leaves a search object: Collection.Within / Intersects never receive nil. *)
+Theorem c02ar_search_obj_nonnil : forall lower pf gj_ok sec_ok lookup cmd fence clip outb vs r,
+  is_nearby cmd = false ->
+  search_area lower pf gj_ok sec_ok lookup cmd fence clip outb vs = Ok r -> s_obj r <> ANil.
 Proof. exact search_obj_nonnil. Qed.
-Print Assumptions c02ar_search_obj_nonnil_partial.
+Print Assumptions c02ar_search_obj_nonnil.
 
-(* "CLIP cannot be combined with GET" is FALSE as soon as a CLIPBY follows: the arm sets err and does not
-   return, and the CLIPBY loop overwrites err (finding C02-clip-get-clipby). *)
-Theorem c02ar_clip_get_refuted :
-  search0 CIntersects false true false (toks ["GET"; "k"; "i"]%string)
-    = Err (EInvalidArg (lit "cannot clip with get")) /\
-  exists r, search0 CIntersects false true false
-              (toks ["GET"; "k"; "i"; "CLIPBY"; "BOUNDS"; "0"; "0"; "1"; "1"]%string) = Ok r
-            /\ s_clip r = true
-            /\ s_obj r = AClip (AGet (lit "k") (lit "i")) (ABounds 0 0 4607182418800017408 4607182418800017408).
-Proof. exact clip_get_witness. Qed.
-Print Assumptions c02ar_clip_get_refuted.
+(* The pinned code (before /repo 1d3bf59) refuted it: GEO was in withinOrIntersectsTypes and has no arm in
+   the switch (finding C02-within-geo-nil, fixed: WITHIN key GEO made the server dereference nil). The
+   repaired code refuses the word. *)
+Theorem c02ar_search_obj_nonnil_pinned_refuted :
+  (exists vs r, search0_pinned CWithin false false false vs = Ok r /\ s_obj r = ANil) /\
+  search0 CWithin false false false (toks ["GEO"%string]) = Err (EInvalidArg (lit "GEO")).
+Proof. exact geo_nil_pinned_witness. Qed.
+Print Assumptions c02ar_search_obj_nonnil_pinned_refuted.
+
+(* "CLIP cannot be combined with GET" (now part of c02ar_clip_refused_texts_differ) was FALSE in the pinned
+   code (before /repo 7096363) as soon as a CLIPBY followed: the arm set err and did not return, and the
+   CLIPBY loop overwrote err (finding C02-clip-get-clipby, fixed). The repaired code refuses both. *)
+Theorem c02ar_clip_get_pinned_refuted :
+  (search0_pinned CIntersects false true false (toks ["GET"; "k"; "i"]%string)
+     = Err (EInvalidArg (lit "cannot clip with get")) /\
+   exists r, search0_pinned CIntersects false true false
+               (toks ["GET"; "k"; "i"; "CLIPBY"; "BOUNDS"; "0"; "0"; "1"; "1"]%string) = Ok r
+             /\ s_clip r = true
+             /\ s_obj r = AClip (AGet (lit "k") (lit "i")) (ABounds 0 0 4607182418800017408 4607182418800017408)) /\
+  search0 CIntersects false true false (toks ["GET"; "k"; "i"; "CLIPBY"; "BOUNDS"; "0"; "0"; "1"; "1"]%string)
+    = Err (EInvalidArg (lit "cannot clip with get")).
+Proof. exact clip_get_pinned_witness. Qed.
+Print Assumptions c02ar_clip_get_pinned_refuted.
+
+(* ---------------------------------------------------------------- where the two parsers differ *)
 
 (* "search accepts => TEST builds the same" is FALSE for TILE x y +z: Atoi reads the sign, ParseUint
    refuses it (finding C02-tile-sign). *)
